@@ -565,13 +565,47 @@ class Engine:
                 m = (1 << w) - 1
                 r = {'BitAnd': (x & m) & (y & m), 'BitOr': (x & m) | (y & m), 'BitXor': (x & m) ^ (y & m)}[op]
                 return I(self.wrap(r, ty), ty)
-            if op == 'BitAnd' and not s:
-                for p, q in ((x, y), (y, x)):
-                    if isinstance(q, int) and q >= 0 and (q & (q + 1)) == 0:
-                        return I(zint(p) % (q + 1), ty)
-            bx, by = self.to_bv(x, ty), self.to_bv(y, ty)
-            r = {'BitAnd': bx & by, 'BitOr': bx | by, 'BitXor': bx ^ by}[op]
-            return I(self.from_bv(r, ty), ty)
+            if s:
+                bx, by = self.to_bv(x, ty), self.to_bv(y, ty)
+                r = {'BitAnd': bx & by, 'BitOr': bx | by, 'BitXor': bx ^ by}[op]
+                return I(self.from_bv(r, ty), ty)
+            # unsigned: arithmetic on the individual bits (div/mod by constants), no bit-vector theory
+            for p, q in ((x, y), (y, x)):
+                if isinstance(q, int):
+                    q &= (1 << w) - 1
+                    if op == 'BitAnd' and (q & (q + 1)) == 0:
+                        return I(zint(p) % (q + 1) if q != (1 << w) - 1 else p, ty)
+                    if op == 'BitAnd' and q == 0:
+                        return I(0, ty)
+                    if op == 'BitAnd':
+                        # high mask 2^w - 2^k
+                        inv = ((1 << w) - 1) ^ q
+                        if (inv & (inv + 1)) == 0:
+                            return I(zint(p) - zint(p) % (inv + 1), ty)
+                    bits = [b for b in range(w) if (q >> b) & 1]
+                    zp = zint(p)
+                    if op == 'BitAnd':
+                        return I(sum([z3.If((zp / (1 << b)) % 2 == 1, 1 << b, 0) for b in bits]) if bits else 0, ty)
+                    if op == 'BitOr':
+                        return I(zp + sum([z3.If((zp / (1 << b)) % 2 == 0, 1 << b, 0) for b in bits]) if bits else p, ty)
+                    return I(zp + sum([z3.If((zp / (1 << b)) % 2 == 0, 1 << b, -(1 << b)) for b in bits]) if bits else p, ty)
+            # a small known value set on one side: case split into the constant forms above
+            for p, q in ((x, y), (y, x)):
+                vq = self.get_vals(q)
+                if vq and len(vq) <= 16:
+                    vs = sorted(vq)
+                    r = self.binop(op, I(p, ty), I(vs[-1], ty), guard, where).t
+                    for k in reversed(vs[:-1]):
+                        r = z3.If(zint(q) == k, zint(self.binop(op, I(p, ty), I(k, ty), guard, where).t), zint(r))
+                    return I(r, ty)
+            zx, zy = zint(x), zint(y)
+            tot = 0
+            for b in range(w):
+                bx = (zx / (1 << b)) % 2 == 1
+                by = (zy / (1 << b)) % 2 == 1
+                c = z3.And(bx, by) if op == 'BitAnd' else (z3.Or(bx, by) if op == 'BitOr' else z3.Xor(bx, by))
+                tot = tot + z3.If(c, 1 << b, 0)
+            return I(tot, ty)
         if op == 'Cmp':
             lt = zint(x) < zint(y)
             eq = zint(x) == zint(y)
@@ -584,7 +618,14 @@ class Engine:
             return I(If(v.t, 1, 0), ty)
         if isinstance(v, En):
             # fieldless enum as integer: discriminant value
-            return I(self.discr_value(v), ty)
+            dv = self.discr_value(v)
+            try:
+                vs = self.decls.enum_variants(v.name)
+                if vs and not isinstance(dv, int):
+                    self.set_vals(dv, {d if d is not None else i for i, (n_, d, f_) in enumerate(vs)})
+            except KeyError:
+                pass
+            return I(dv, ty)
         if not isinstance(v, I):
             raise Unsupported('cast of %r' % (v,))
         w, s = INT_TYS[ty]
@@ -1432,10 +1473,16 @@ def _make_adt(self, name, vals, fnames, dest_ty):
 Engine.make_adt = _make_adt
 
 
+# module-path prefixes (lower-case segments) are printed or trimmed by rustc depending on what else
+# is in scope; models are matched against the raw callee string and against this normal form
+_NORM_RX = re.compile(r'\b(?:[a-z_][a-z0-9_]*::)+(?=[A-Za-z_{\[]|<impl )')
+
+
 def _call(self, func, argv, guard, mem, dest_ty, caller):
     """returns (value, guard_after) or DIVERGE"""
+    norm = _NORM_RX.sub('', func)
     for rx, h in self.models:
-        m = rx.search(func)
+        m = rx.search(func) or (rx.search(norm) if norm != func else None)
         if m:
             r = h(self, m, func, argv, guard, mem, dest_ty, caller)
             if r is NotImplemented:
